@@ -1103,7 +1103,9 @@ fn b_hilbert(src: &mut Src, env: &Env) -> Case {
 fn b_symbol_sync(src: &mut Src, env: &Env) -> Case {
     let cap = env.cap::<f32>();
     let sps = *src.pick(&[2.5f32, 4.0, 5.2083335, 8.0, 10.0]);
-    let n = gen_len(src, cap);
+    // Input lengths against the capacity in symbols, so that the symbol
+    // output (and the clock output) can fill up.
+    let n = gen_len(src, (cap as f32 * sps) as usize);
     // NRZ-ish waveform with seeded symbol timing so that crossings happen.
     let mut data = Vec::with_capacity(n);
     let mut level = 1.0f32;
@@ -1119,17 +1121,23 @@ fn b_symbol_sync(src: &mut Src, env: &Env) -> Case {
     }
     let (p, r) = StreamIn::new(data, vec![]);
     let filt = rustradio::iir_filter::IirFilter::new(&[0.1, 0.9]);
-    let (blk, o) = SymbolSync::new(r, sps, 0.1, Box::new(rustradio::symbol_sync::TedZeroCrossing::new()), Box::new(filt));
-    let mut c = Case::new("SymbolSync", format!("len {n} sps {sps}"), Box::new(blk));
+    let (mut blk, o) = SymbolSync::new(r, sps, 0.1, Box::new(rustradio::symbol_sync::TedZeroCrossing::new()), Box::new(filt));
+    // Half the time with the optional clock output connected: a second output
+    // whose reader runs at its own pace.
+    let clock = if src.coin() { blk.out_clock() } else { None };
+    let mut c = Case::new("SymbolSync", format!("len {n} sps {sps} clock_out {}", clock.is_some()), Box::new(blk));
     c.ins = vec![p];
     c.outs = vec![StreamOut::new(o)];
+    if let Some(ck) = clock {
+        c.outs.push(StreamOut::new(ck));
+    }
     c
 }
 
 fn b_zero_crossing(src: &mut Src, env: &Env) -> Case {
     let cap = env.cap::<f32>();
     let sps = *src.pick(&[2.5f32, 4.0, 5.2083335, 8.0, 10.0]);
-    let n = gen_len(src, cap);
+    let n = gen_len(src, (cap as f32 * sps) as usize);
     let mut data = Vec::with_capacity(n);
     let mut level = 1.0f32;
     let mut next = sps * (src.below(100) as f32 / 100.0);
@@ -1143,10 +1151,14 @@ fn b_zero_crossing(src: &mut Src, env: &Env) -> Case {
         data.push(level * 0.5);
     }
     let (p, r) = StreamIn::new(data, vec![]);
-    let (blk, o) = ZeroCrossing::new(r, sps, 0.1);
-    let mut c = Case::new("ZeroCrossing", format!("len {n} sps {sps}"), Box::new(blk));
+    let (mut blk, o) = ZeroCrossing::new(r, sps, 0.1);
+    let clock = if src.coin() { Some(blk.out_clock()) } else { None };
+    let mut c = Case::new("ZeroCrossing", format!("len {n} sps {sps} clock_out {}", clock.is_some()), Box::new(blk));
     c.ins = vec![p];
     c.outs = vec![StreamOut::new(o)];
+    if let Some(ck) = clock {
+        c.outs.push(StreamOut::new(ck));
+    }
     c
 }
 
